@@ -1615,6 +1615,9 @@ func (e *Eval) indexAddr(fr *frame, x *ssa.IndexAddr, st State) AV {
 			if at, ok := b.G.Type().Underlying().(*types.Pointer).Elem().Underlying().(*types.Array); ok {
 				n = CInt(at.Len())
 				e.boundsCheck(fr, x, idx, n, "array "+b.G.Name())
+				if e.initMode {
+					return PtrV{Elem: &ElemRef{Base: base, Idx: idx}} // the initialiser fills the array in place
+				}
 				if vec := e.G.vecOf(e, b.G); vec != nil {
 					return PtrV{Elem: &ElemRef{Base: *vec, Idx: idx}}
 				}
@@ -1868,6 +1871,24 @@ func (e *Eval) storeElem(fr *frame, x *ssa.Store, el *ElemRef, v AV, st State) {
 			return
 		}
 		if b.G != nil {
+			if e.initMode {
+				if at, ok := b.G.Type().Underlying().(*types.Pointer).Elem().Underlying().(*types.Array); ok && at.Len() <= 4096 {
+					if e.GlobalInit == nil {
+						e.GlobalInit = map[*ssa.Global]AV{}
+					}
+					cur, _ := e.GlobalInit[b.G].(VecV)
+					if cur.Elems == nil {
+						cur.Elems = make([]AV, at.Len())
+					} else {
+						cur.Elems = append([]AV{}, cur.Elems...)
+					}
+					if c, ok := el.Idx.Const(); ok && c >= 0 && c < at.Len() {
+						cur.Elems[c] = v
+						e.GlobalInit[b.G] = cur
+						return
+					}
+				}
+			}
 			e.event("E1", Violated, x, "store to element of package-level variable %s", b.G.Name())
 		}
 	case SliceV:
